@@ -253,6 +253,14 @@ void gen_history(Rng &r, const Profile &pf, Plan &plan) {
             size_t ni = r.below(customs.size());
             frames.push_back(make_param_step(r, pf, customs[gi].first, customs[ni].second, true));
         }
+        if (r.chance(1, 12) && f > 0) {
+            Step d; d.op = OP_FRAME_DUP;
+            int64_t srcRaw = static_cast<int64_t>(r.below(1000));
+            int64_t dmode = static_cast<int64_t>(r.below(4));
+            int64_t draw = static_cast<int64_t>(r.below(1000));
+            d.i = {srcRaw, dmode, draw};
+            frames.push_back(d);
+        }
         if (r.chance(1, 10)) {
             Step e; e.op = OP_PARAM_EDIT;
             int64_t g = static_cast<int64_t>(r.below(16));
